@@ -10,7 +10,7 @@ CONSTANTS
   EncChoices = {FALSE, TRUE}
   ByValueMax = 2
   AllowConflicts = FALSE
-  Features = {"psk", "storage"}
+  Features = {"psk", "storage", "extcommit"}
   Window = 1024
   Retention = 2
   BurstSizes = {1, 2}
